@@ -95,6 +95,8 @@ Definition dispatch_c12 (tag : N) (a : list (list N)) : list (list N) :=
   | 1201 => enc_res (dhcp_decode (arg a 0)) enc_dhcp
   | 1202 => [dhcp_assemble (dec_dhcp a)]
   | 1203 => enc_decoded (decode_options (dec_dopts a))
+  (* an encoding is a value: the bytes Assemble returned (copied at once) and the same slice looked at again after later calls *)
+  | 1204 => [[b2n (bytes_eqb (arg a 0) (arg a 1))]]
   | _ => [[99]]
   end.
 
